@@ -23,6 +23,7 @@ func init() {
 			"PV-WHOLE LabelSet.Range visits every label",
 			"PV-PAIR a sample carries the label set built for its own entry",
 			"PV-ROLE every value vectorAggIterator reports is an aggregator's Result()",
+			"PV-VERBATIM grouping labels are the record's labels under their own names",
 		},
 		NotDecided: []string{"aggregate arithmetic (Welford, NaN handling)", "final ordering for ties", "container/heap correctness"},
 		Rules: func(r *Run) {
@@ -47,6 +48,7 @@ func init() {
 			ruleLabelSetRangeWhole(r)
 			ruleSampleLabelSet(r)
 			ruleVectorAggValuesFromAggregator(r)
+			ruleAggLabelNamesVerbatim(r)
 		},
 	})
 }
